@@ -322,7 +322,13 @@ impl Runner {
             }
             if exp != got {
                 let (q, exp, got) = self.shrink(q, exp, got.to_string())?;
-                if self.disagreements.len() < 50 {
+                // keep a few per operation so that the report shows every affected op
+                let per_op = self
+                    .disagreements
+                    .iter()
+                    .filter(|d| d.input[0].split(' ').next() == Some(q.name()))
+                    .count();
+                if per_op < 6 && self.disagreements.len() < 80 {
                     self.disagreements.push(Disagreement {
                         kind: "impl-vs-model",
                         input: vec![q.line()],
@@ -493,9 +499,7 @@ fn run(r: &mut Runner, thorough: bool, seed: u64) -> Result<(), String> {
             for &c in &REPS {
                 for &d in &REPS {
                     let s = [a, b, c, d];
-                    // cut positions / case maps: for the well-formed ones and (thorough) all
-                    let cuts = thorough || core::str::from_utf8(&s).is_ok();
-                    r.check_bytes(&s, cuts)?;
+                    r.check_bytes(&s, true)?;
                 }
             }
         }
